@@ -22,11 +22,12 @@ from harness.gen import Gen, describe
 
 D = datetime.date
 ONE = datetime.timedelta(days=1)
-IMPORTS = ("From Bermuda Require Import Lib.Calendar Model.Select.\n"
+IMPORTS = ("From Bermuda Require Import Model.Order Lib.Calendar Model.Select.\n"
            "From Gen Require Import GenPred.\n")
 FALLBACK = ("From Bermuda Require Import Model.Base Model.Select.\n"
             "Definition gen_clip : clip_spec := expected_clip_spec.\n"
-            "Definition gen_getitem : getitem_desc := expected_getitem.\n")
+            "Definition gen_getitem : getitem_desc := expected_getitem.\n"
+            "Definition gen_getitem_slice : getitem_desc := expected_getitem.\n")
 
 
 # =============================================================================== generation
@@ -260,6 +261,12 @@ def ops_for(t, rng, quick=True):
         b = rng.choice([None, None, rng.randint(-n - 2, n + 2)])
         s = rng.choice([None, None, 1, 2, 3])
         ops.append({"kind": "getitem", "index": ["range", a, b, s]})
+    for a, b, st in [(None, None, -1), (None, None, -2), (n - 1, 0, -1), (-1, -n - 1, -3)]:
+        ops.append({"kind": "getitem", "index": ["range", a, b, st]})
+    for _ in range(4):
+        a = rng.choice([None, rng.randint(-n - 2, n + 2)])
+        b = rng.choice([None, rng.randint(-n - 2, n + 2)])
+        ops.append({"kind": "getitem", "index": ["range", a, b, -rng.choice([1, 1, 2, 3])]})
     metas = []
     for c in cells:
         if not any(m is c.metadata for m in metas):
@@ -300,6 +307,20 @@ def ops_for(t, rng, quick=True):
     ops.append({"kind": "getitem", "index": ["arity", 4]})
     ops.append({"kind": "getitem", "index": ["triple", ["bad", "int"], ["slice", None, None], ["all"]]})
     ops.append({"kind": "getitem", "index": ["triple", ["slice", None, None], ["bad", "str"], ["none"]]})
+    # ---- TriangleSlice.__getitem__ on the first slice: (period, evaluation), ints, ranges, malformed
+    if cells:
+        sl = [c for c in cells if meta_key(c.metadata) == meta_key(cells[0].metadata)]
+        spss, sevs = sorted({c.period_start for c in sl}), sorted({c.evaluation_date for c in sl})
+        for _ in range(8 if quick else 24):
+            ops.append({"kind": "getitem2", "index": ["pair", pform(spss), pform(sevs)]})
+        for c in rng.sample(sl, min(2, len(sl))):
+            ops.append({"kind": "getitem2", "index": ["pair", ["date", iso(c.period_start)], ["date", iso(c.evaluation_date)]]})
+        ops.append({"kind": "getitem2", "index": ["pair", ["slice", None, None], ["slice", None, None]]})
+        ops.append({"kind": "getitem2", "index": ["pair", ["bad", "int"], ["slice", None, None]]})
+        ops.append({"kind": "getitem2", "index": ["arity", 3]})
+        ops.append({"kind": "getitem2", "index": ["arity", 1]})
+        ops.append({"kind": "getitem2", "index": ["int", rng.randint(-len(sl) - 1, len(sl))]})
+        ops.append({"kind": "getitem2", "index": ["range", rng.choice([None, 1]), rng.choice([None, -1]), rng.choice([None, 2])]})
     # ---- right edge
     ops.append({"kind": "right_edge"})
     # ---- select: every subset of the fields (small), a missing key, repeated / reordered keys
@@ -430,6 +451,11 @@ def coq_index(ix):
     return f"(ITriple {pe(ix[1])} {pe(ix[2])} {mm})"
 
 
+def first_slice(t):
+    cells = t.cells
+    return [c for c in cells if meta_key(c.metadata) == meta_key(cells[0].metadata)]
+
+
 def run_op(t, op):
     """the REAL operation; returns the python result (exceptions propagate)"""
     k = op["kind"]
@@ -452,6 +478,14 @@ def run_op(t, op):
         return t.split(op["keys"])
     if k == "getitem":
         return t[py_index(op["index"])]
+    if k == "getitem2":
+        from bermuda.triangle import TriangleSlice
+
+        ts = TriangleSlice(first_slice(t))
+        ix = op["index"]
+        if ix[0] == "pair":
+            return ts[py_index(["triple", ix[1], ix[2], ["none"]])[:2]]
+        return ts[py_index(ix)]
     if k == "right_edge":
         return t.right_edge
     if k == "select":
@@ -531,6 +565,61 @@ def meta_key(m):
             norm_mval(m.per_occurrence_limit),
             tuple(sorted((k, norm_mval(v)) for k, v in m.details.items())),
             tuple(sorted((k, norm_mval(v)) for k, v in m.loss_details.items())))
+
+
+def order_key(c):
+    return (meta_key(c.metadata), c.period_start, c.period_end, c.evaluation_date,
+            getattr(c, "prev_evaluation_date", None))
+
+
+def oracle_getitem(cells, ix, res):
+    """t[ix] for a triangle / triangle slice with these cells (in order); ix in the three-index vocabulary"""
+    probs = []
+    exc = res if isinstance(res, BaseException) else None
+    n = len(cells)
+    if ix[0] == "int":
+        i = ix[1]
+        if -n <= i < n:
+            if exc is not None or res is not cells[i]:
+                probs.append(f"t[{i}] is not the {i}-th cell")
+        elif not isinstance(exc, IndexError):
+            probs.append(f"t[{i}] with {n} cells did not raise IndexError")
+    elif ix[0] == "range" and (ix[3] or 1) > 0:
+        if exc is not None or not same_cells(res.cells, cells[slice(ix[1], ix[2], ix[3])]):
+            probs.append(f"t[{ix[1]}:{ix[2]}:{ix[3]}] is not that slice of the cells")
+    elif ix[0] == "range":
+        # negative step: the selected cells, re-sorted by the constructor
+        sel = cells[slice(ix[1], ix[2], ix[3])]
+        if exc is not None or sorted(map(repr, jc.canon_seq(res.cells))) != sorted(map(repr, jc.canon_seq(sel))):
+            probs.append(f"t[{ix[1]}:{ix[2]}:{ix[3]}] does not hold exactly the selected cells")
+        elif len({order_key(c) for c in sel}) == len(sel) and not same_cells(res.cells, list(reversed(sel))):
+            probs.append(f"t[{ix[1]}:{ix[2]}:{ix[3]}] is not in canonical order")
+    elif ix[0] == "arity" or ix[1][0] == "bad" or ix[2][0] == "bad":
+        if not isinstance(exc, ValueError):
+            probs.append(f"malformed index {ix} did not raise ValueError")
+    else:
+        def rng_of(f):
+            if f[0] == "date":
+                return d_(f[1]), d_(f[1])
+            return d_(f[1]), d_(f[2])
+
+        (plo, phi), (elo, ehi) = rng_of(ix[1]), rng_of(ix[2])
+        m = ix[3]
+        mm = jc.meta_from_json(m[1]) if m[0] == "meta" else None
+        want = [c for c in cells
+                if (mm is None or meta_key(c.metadata) == meta_key(mm))
+                and (plo is None or plo <= c.period_start) and (phi is None or c.period_start <= phi)
+                and (elo is None or elo <= c.evaluation_date) and (ehi is None or c.evaluation_date <= ehi)]
+        is_tri = ix[1][0] == "slice" or ix[2][0] == "slice" or m[0] == "all"
+        if is_tri:
+            if exc is not None or not same_cells(res.cells, want):
+                probs.append(f"t[{ix[1]}, {ix[2]}, {m[0]}] is not the filter on period_start / evaluation_date / metadata")
+        elif want:
+            if exc is not None or res is not want[0]:
+                probs.append(f"t[{ix[1]}, {ix[2]}, {m[0]}] is not the cell at these coordinates")
+        elif not isinstance(exc, IndexError):
+            probs.append(f"t[{ix[1]}, {ix[2]}, {m[0]}] (no such cell) did not raise IndexError")
+    return probs
 
 
 def oracle(t, op, res):
@@ -627,43 +716,12 @@ def oracle(t, op, res):
         if [int(x) for x in res] != [getattr(c, a).toordinal() for c in cells]:
             probs.append("extract(callable) is not the map over the cells in order")
     elif k == "getitem":
+        probs += oracle_getitem(cells, op["index"], res)
+    elif k == "getitem2":
         ix = op["index"]
-        n = len(cells)
-        if ix[0] == "int":
-            i = ix[1]
-            if -n <= i < n:
-                if exc is not None or res is not cells[i]:
-                    probs.append(f"t[{i}] is not the {i}-th cell")
-            elif not isinstance(exc, IndexError):
-                probs.append(f"t[{i}] with {n} cells did not raise IndexError")
-        elif ix[0] == "range":
-            if exc is not None or not same_cells(res.cells, cells[slice(ix[1], ix[2], ix[3])]):
-                probs.append(f"t[{ix[1]}:{ix[2]}:{ix[3]}] is not that slice of the cells")
-        elif ix[0] == "arity" or ix[1][0] == "bad" or ix[2][0] == "bad":
-            if not isinstance(exc, ValueError):
-                probs.append(f"malformed index {ix} did not raise ValueError")
-        else:
-            def rng_of(f):
-                if f[0] == "date":
-                    return d_(f[1]), d_(f[1])
-                return d_(f[1]), d_(f[2])
-
-            (plo, phi), (elo, ehi) = rng_of(ix[1]), rng_of(ix[2])
-            m = ix[3]
-            mm = jc.meta_from_json(m[1]) if m[0] == "meta" else None
-            want = [c for c in cells
-                    if (mm is None or meta_key(c.metadata) == meta_key(mm))
-                    and (plo is None or plo <= c.period_start) and (phi is None or c.period_start <= phi)
-                    and (elo is None or elo <= c.evaluation_date) and (ehi is None or c.evaluation_date <= ehi)]
-            is_tri = ix[1][0] == "slice" or ix[2][0] == "slice" or m[0] == "all"
-            if is_tri:
-                if exc is not None or not same_cells(res.cells, want):
-                    probs.append(f"t[{ix[1]}, {ix[2]}, {m[0]}] is not the filter on period_start / evaluation_date / metadata")
-            elif want:
-                if exc is not None or res is not want[0]:
-                    probs.append(f"t[{ix[1]}, {ix[2]}, {m[0]}] is not the cell at these coordinates")
-            elif not isinstance(exc, IndexError):
-                probs.append(f"t[{ix[1]}, {ix[2]}, {m[0]}] (no such cell) did not raise IndexError")
+        if ix[0] == "pair":
+            ix = ["triple", ix[1], ix[2], ["none"]]
+        probs += oracle_getitem(first_slice(t), ix, res)
     return probs
 
 
@@ -678,7 +736,7 @@ def coq_cases(t, tname, op, res):
     cells = t.cells
     exc = res if isinstance(res, BaseException) else None
     out = []
-    if k not in ("getitem",) and exc is not None:
+    if k not in ("getitem", "getitem2") and exc is not None:
         return [("false", "impl-raised")]
     oc = lambda r: jc.out_cells_term(r.cells, cells, tname)     # noqa: E731
     if k == "clip":
@@ -725,14 +783,31 @@ def coq_cases(t, tname, op, res):
     elif k == "extract_fn":
         o = "[" + ";".join(str(int(x)) for x in res) + "]"
         out.append((f"list_eqb Z.eqb (extract_fn {op['fn']} {tname}) {o}", "model"))
-    elif k == "getitem":
+    elif k in ("getitem", "getitem2"):
+        ix = op["index"]
+        if k == "getitem2":
+            sl = first_slice(t)
+            sterm = jc.out_cells_term(sl, cells, tname)
+            oc = lambda r: jc.out_cells_term(r.cells, cells, tname)     # noqa: E731,F811
         if exc is not None:
             o = f"(Err {ct.cerr(exc)})"
         elif hasattr(res, "cells"):
             o = f"(Ok (GTri {oc(res)}))"
         else:
             o = f"(Ok (GCell {ct.ccell(res)}))"
-        out.append((f"result_eqb gi_out_eqb (getitem gen_getitem gen_clip {coq_index(op['index'])} {tname}) {o}", "model"))
+        if k == "getitem2":
+            if ix[0] == "pair":
+                pe_ = coq_index(["triple", ix[1], ix[2], ["none"]]).replace("(ITriple ", "(I2Pair ").replace(" MNoneIdx)", ")")
+                out.append((f"result_eqb gi_out_eqb (slice_getitem gen_getitem_slice gen_clip {pe_} {sterm}) {o}", "model"))
+            elif ix[0] == "arity":
+                out.append((f"result_eqb gi_out_eqb (slice_getitem gen_getitem_slice gen_clip I2BadArity {sterm}) {o}", "model"))
+            else:
+                out.append((f"result_eqb gi_out_eqb (getitem gen_getitem_slice gen_clip {coq_index(ix)} {sterm}) {o}", "model"))
+        elif ix[0] == "range" and (ix[3] or 1) < 0:
+            out.append((f"result_eqb gi_out_eqb (Ok (getitem_neg_step sort_cells {jc.copt(ix[1], jc.cz)} "
+                        f"{jc.copt(ix[2], jc.cz)} {-ix[3]}%positive {tname})) {o}", "model"))
+        else:
+            out.append((f"result_eqb gi_out_eqb (getitem gen_getitem gen_clip {coq_index(ix)} {tname}) {o}", "model"))
     return out
 
 
@@ -783,14 +858,15 @@ def run(ctx):
         "with every bound kind at the triangle's own dates/lags, +-1 day, +-1 month, out of range, day and month "
         "units, float bounds, conjunctions; complementary clips and filters; slices; split by every subset of the "
         "detail keys; all index forms (int incl. negative/out of range, ranges with steps, (period, evaluation, "
-        "metadata) with dates / slices / None / foreign metadata, malformed); right_edge; select by every subset "
+        "metadata) with dates / slices / None / foreign metadata, malformed; negative steps; TriangleSlice[period, "
+        "evaluation] on the first slice); right_edge; select by every subset "
         "of <= 4 fields; extract.  A case is non-trivial if its triangle has >= 2 cells or an error branch is hit.")
     ctx.assumptions += [
         "translate/t_pred.py reads the Python AST faithfully (which attribute / operator / bound / guard)",
         "cell order is the input order: every operation here selects from an already sorted list (C01 owns sorting)",
         "month-unit development lags are modelled on month-aligned cells only (integer lags, C12); "
         "a timedelta-unit bound of n days is modelled as the day-unit bound n",
-        "TriangleSlice.__getitem__ is not modelled (Triangle.__getitem__ is)",
+        "the class of an index result (Triangle vs TriangleSlice) is not modelled, its cells are",
     ]
     translated = prepare(ctx)
     theorems(ctx, translated)
@@ -798,7 +874,7 @@ def run(ctx):
 
 
 def theorems(ctx, translated):
-    ctx.audit_tree(["Model/Select.v", "Proofs/SelectP.v", "Props/C11.v"])
+    ctx.audit_tree(["Model/Select.v", "Proofs/SelectP.v", "Proofs/SelectCanon.v", "Props/C11.v"])
     ctx.prove_static("Props/C11.v", timeout=900)
     gp = ctx.build / "C11_Gen.v"
     shutil.copy(COQ / "GenProps" / "C11_Gen.v", gp)
@@ -837,7 +913,9 @@ def correspond(ctx):
                     res = run_op(t, op)
             except Exception as ex:  # noqa: BLE001
                 res = ex
-            kind = op["kind"] + (":" + op["index"][0] if op["kind"] == "getitem" else "")
+            kind = op["kind"] + (":" + op["index"][0] if op["kind"] in ("getitem", "getitem2") else "")
+            if op["kind"] == "getitem" and op["index"][0] == "range" and (op["index"][3] or 1) < 0:
+                kind += ":negative-step"
             ctx.hist("op:" + kind + (":raised" if isinstance(res, BaseException) else ""))
             probs = oracle(t, op, res)
             if probs:
